@@ -223,6 +223,11 @@ class SymArray:
                 row.d[c] = self.d[k]
                 row._sync()
 
+    def _mask2(self, mask):
+        if mask.shape != self.shape:
+            raise IndexError("boolean index did not match indexed array")
+        return [(r, c) for r, row in enumerate(mask.d) for c, m in enumerate(row.d) if bool(m)]
+
     def _mask_indices(self, mask):
         if len(mask) != len(self.d):
             raise IndexError("boolean index did not match indexed array")
@@ -233,6 +238,8 @@ class SymArray:
         return idx
 
     def __getitem__(self, i):
+        if isinstance(i, tuple) and len(i) == 1:
+            i = i[0]
         if isinstance(i, tuple):
             if self.ndim != 2 or len(i) != 2:
                 raise IndexError("too many indices")
@@ -260,6 +267,18 @@ class SymArray:
                 r._mem = list(range(len(r.d) - 1, -1, -1))
             return r
         if isinstance(i, SymArray):
+            if self.ndim == 2:
+                if i.dtype_tag == "bool" and i.ndim == 2:
+                    # a 2-D mask selects elements in row-major order (1-D result); every undecided element splits the path
+                    return SymArray([self.d[r].d[c] for r, c in self._mask2(i)], self.dtype_tag)
+                if i.ndim == 1 and i.dtype_tag == "bool":
+                    rows = [self.d[j] for j in SymArray(list(range(len(self.d))), "i8")._mask_indices(i)]
+                    return SymArray([SymArray(list(r.d), self.dtype_tag) for r in rows], self.dtype_tag, (len(rows), self._ncols))
+                if i.ndim == 1:
+                    # an integer index array on a 2-D array selects whole ROWS
+                    rows = [self.d[int(j)] for j in i.d]
+                    return SymArray([SymArray(list(r.d), self.dtype_tag) for r in rows], self.dtype_tag, (len(rows), self._ncols))
+                raise Unsupported("2-D fancy indexing")
             if i.dtype_tag == "bool":
                 idx = self._mask_indices(i)
                 return SymArray([self.d[j] for j in idx], self.dtype_tag)
@@ -273,6 +292,8 @@ class SymArray:
     def _coerce(self, v):
         if isinstance(v, Uninit):
             return v
+        if type(v).__name__ == "ZeroD":
+            v = v.v                  # a 0-d array stored into an element: its value
         if self.dtype_tag in INTS:
             if isinstance(v, (SymBool, bool)):
                 return lift(v) if isinstance(v, SymBool) else Q(int(v))
@@ -293,6 +314,8 @@ class SymArray:
         self._sync()
 
     def _setitem_impl(self, i, v):
+        if isinstance(i, tuple) and len(i) == 1:
+            i = i[0]
         if isinstance(i, tuple):
             r, c = i
             if isinstance(r, slice):
@@ -302,6 +325,29 @@ class SymArray:
                 return
             self.d[int(r)][c] = v
             return
+        if self.ndim == 2 and isinstance(i, SymArray):
+            if i.dtype_tag == "bool" and i.ndim == 2:
+                cells = self._mask2(i)
+                vals = list(v._flat()) if isinstance(v, SymArray) else None
+                if vals is not None and len(vals) == 1:
+                    vals = vals * len(cells)
+                if vals is not None and len(vals) != len(cells):
+                    raise ValueError(f"NumPy boolean array indexing assignment cannot assign {len(vals)} input values to the {len(cells)} output values where the mask is true")
+                for n_, (r, c) in enumerate(cells):
+                    self.d[r].d[c] = self.d[r]._coerce(vals[n_] if vals is not None else v)
+                return
+            if i.ndim == 1:
+                rows = [int(j) for j in i.d] if i.dtype_tag != "bool" else SymArray(list(range(len(self.d))), "i8")._mask_indices(i)
+                if isinstance(v, SymArray) and v.ndim == 2:
+                    if len(v.d) != len(rows):
+                        raise ValueError(f"shape mismatch: value array of shape {v.shape} could not be broadcast to indexing result of shape ({len(rows)}, {self._ncols})")
+                    for r, src in zip(rows, v.d):
+                        self.d[r][:] = src
+                else:
+                    for r in rows:
+                        self.d[r][:] = v
+                return
+            raise Unsupported("2-D fancy assignment")
         if self.ndim == 2:
             if isinstance(i, slice):
                 rows = self.d[i]
@@ -862,6 +908,18 @@ for _n, _op in (("__lt__", "lt"), ("__le__", "le"), ("__gt__", "gt"), ("__ge__",
 ZeroD.__hash__ = None
 
 
+def _zd_iop(name):
+    def f(self, o):
+        # in place, as numpy does for a 0-d array: every alias of the object (the owner's attribute included) sees the result
+        self.v = SymArray([], self.dtype_tag)._coerce(getattr(lift(self.v), name)(_zd(o)))
+        return self
+    return f
+
+
+for _n, _m in (("__iadd__", "__add__"), ("__isub__", "__sub__"), ("__imul__", "__mul__"), ("__itruediv__", "__truediv__"), ("__ipow__", "__pow__")):
+    setattr(ZeroD, _n, _zd_iop(_m))
+
+
 def asarray(x, dtype=None):
     if isinstance(x, ZeroD):
         x = x.v                       # inside the model a 0-d array is its value (numpy functions return scalars for it)
@@ -1294,7 +1352,20 @@ class NP:
     def divide(self, a, b): return asarray(a) / b if not _is_scalar(a) else (a / b if not isinstance(b, SymArray) else b.__rtruediv__(a))
     true_divide = divide
     def negative(self, a): return -asarray(a) if not _is_scalar(a) else -a
-    def reciprocal(self, a): return 1 / asarray(a) if not _is_scalar(a) else 1 / a
+    def reciprocal(self, a):
+        """1/x in the dtype of x: for an integer array (or Python int) numpy divides in integers (0 for |x| > 1)."""
+        a = a.__sx_plain__() if hasattr(a, "__sx_plain__") else a
+        if isinstance(a, ZeroD):
+            a = a.v
+        if _is_scalar(a):
+            if is_intlike(a):
+                t = SymArray([], "i8")
+                return t._coerce(1 / lift(a))
+            return 1 / a
+        a = asarray(a)
+        if a.dtype_tag in ("i8", "i4"):
+            return (1 / a.astype("f8")).astype(a.dtype_tag)
+        return 1 / a
 
     def sign(self, x):
         def one(v):
@@ -1484,7 +1555,13 @@ class NP:
         x = asarray(x) if not _is_scalar(x) else x
         return x._map(c) if isinstance(x, SymArray) else c(x)
 
-    def where(self, cond, a, b):
+    _MISSING = object()
+
+    def where(self, cond, a=_MISSING, b=_MISSING):
+        if a is self._MISSING and b is self._MISSING:
+            return self.nonzero(cond)
+        if a is self._MISSING or b is self._MISSING:
+            raise ValueError("either both or neither of x and y should be given")
         # a non-finite constant in one branch (np.inf, np.nan): the result is the other branch, and the condition under
         # which the non-finite value would be selected is recorded as a definedness condition ("the result is finite")
         def nonfinite(v):
@@ -1511,6 +1588,55 @@ class NP:
                 out.append(s_ite(cnd, A.d[j] if A is not None else a, B.d[j] if B is not None else b))
             return SymArray(out, "f8")
         return s_ite(cond, a, b)
+
+    def nonzero(self, a):
+        """Tuple of index arrays of the true / non-zero elements (one per dimension); every element that the path condition
+        does not settle splits the path."""
+        a = asarray(a)
+        if _is_scalar(a):
+            raise Unsupported("np.nonzero of a scalar")
+
+        def truthy(v):
+            if isinstance(v, (bool, SymBool)):
+                return bool(v)
+            return bool(_cmp(v, Q(0), "ne"))
+        if a.ndim == 2:
+            rows, cols = [], []
+            for i, r in enumerate(a.d):
+                for j, v in enumerate(r.d):
+                    if truthy(v):
+                        rows.append(QI(i))
+                        cols.append(QI(j))
+            return (SymArray(rows, "i8"), SymArray(cols, "i8"))
+        return (SymArray([QI(j) for j, v in enumerate(a.d) if truthy(v)], "i8"),)
+
+    def flatnonzero(self, a):
+        a = asarray(a)
+        return self.nonzero(SymArray(list(a._flat()), a.dtype_tag))[0]
+
+    def fromiter(self, it, dtype=None, count=-1):
+        items = list(it)
+        if count is not None and count >= 0:
+            items = items[:int(count)]
+        tag = _norm_dtype(dtype) or "f8"
+        out = SymArray([], tag)
+        out.d = [out._coerce(_zd(v) if not isinstance(v, SymArray) else (v.d[0] if v.size == 1 else v)) for v in items]
+        return out
+
+    def ndenumerate(self, a):
+        """(index tuple, value) pairs in C (logical) order."""
+        a = asarray(a)
+        if _is_scalar(a):
+            return iter([((), a)])
+        if a.ndim == 2:
+            return iter([((i, j), v) for i, r in enumerate(a.d) for j, v in enumerate(r.d)])
+        return iter([((j,), v) for j, v in enumerate(a.d)])
+
+    def ndindex(self, *shape):
+        if len(shape) == 1 and isinstance(shape[0], tuple):
+            shape = shape[0]
+        import itertools as _it
+        return iter(_it.product(*[range(int(n)) for n in shape]))
 
     def isclose(self, a, b, rtol=1e-05, atol=1e-08, equal_nan=False):
         """|a - b| <= atol + rtol * |b| element-wise (numpy's asymmetric definition)."""
